@@ -117,13 +117,11 @@ func run(c *core.Ctx) {
 		if !c.Mine(i) {
 			continue
 		}
-		var k kase
 		if i < len(fixed) {
-			k = fixed[i]
-		} else {
-			k = historyCase(i - len(fixed))
-		}
-		if c.Case(k.id) {
+			if k := fixed[i]; c.Case(k.id) {
+				k.run(c, k.id)
+			}
+		} else if k := historyCase(i - len(fixed)); c.CaseQuiet(k.id) { // library panics are recovered inside exec
 			k.run(c, k.id)
 		}
 	}
